@@ -235,7 +235,7 @@ def sh_key(op, m, ans=""):
                 f = dsts[ai].split(".")
                 if dsts[ai].startswith("r") and len(f) == 3 and 9 <= int(f[0][1:]) <= 13 and \
                         {scalar_of(types[ai]), scalar_of(int(f[2]))} == {42, 43} and ("r%s.%s" % (f[0][1:], f[1])) not in written \
-                        and not any(w.endswith("." + f[1]) and w.startswith("r1") for w in written):
+                        and not any(w.startswith("r") and w[1:].split(".")[1] == f[1] and 7 <= int(w[1:].split(".")[0]) <= 15 for w in written):
                     k7.append(ai)
         if bad_args and len(k7) == len(bad_args):
             return "shuffle:same-register-conversion-skipped"
